@@ -12,6 +12,8 @@ import OV.Drivers.Loop
 * `C14 fold <prevModified 0|1> <nodes f<id>:<v>,k<id>,u<k>|->`      → `modified=<0|1> nconst=<n>`
 * `C14 kw <aliasing 0|1> <fn refs csv> <bases r:k=v;k=v|…|-> <calls fi:k=v;…/…|-> <target fi:k=v;…> <keys csv>`
                                                                      → `eff=<v|none,…> plain=<…> dicts=<r:k=v;…|…>`
+* `C14 globr <expr> <k=v;k=@c;…|-> <cells c=v;…|-> <cells later c=v;…|->`  (copy / by-reference read off the Gen table)
+                                                                     → `before=<csv> after=<csv> copy=<0|1>`
 * `C14 castable <fn1 consts csv|-> <fn2 consts csv|-> <arg>`        → `castlike=<0|1> resets=<0|1>`
 -/
 namespace OV.Drivers.C14
@@ -129,6 +131,23 @@ def parseCall (s : String) : Option (Nat × KW) :=
   | [i] => i.toNat?.map (fun n => (n, []))
   | _ => none
 
+def parseRGlobals (s : String) : RGlobals :=
+  if s == "-" || s == "" then [] else
+  (s.splitOn ";").filterMap (fun kv => match kv.splitOn "=" with
+    | [k, v] =>
+      if v.startsWith "@" then (v.drop 1).toString.toNat?.map (fun c => (k, GVal.ref c))
+      else v.toInt?.map (fun i => (k, GVal.imm i))
+    | _ => none)
+
+def parseCells (s : String) : Cells :=
+  let l : List (Nat × Int) := if s == "-" || s == "" then [] else
+    (s.splitOn ";").filterMap (fun kv => match kv.splitOn "=" with
+      | [k, v] => match k.toNat?, v.toInt? with
+        | some k, some v => some (k, v)
+        | _, _ => none
+      | _ => none)
+  fun c => (l.lookup c).getD 0
+
 def b01 (b : Bool) : String := if b then "1" else "0"
 
 def handle (args : List String) : String :=
@@ -185,6 +204,14 @@ def handle (args : List String) : String :=
       let dicts := "|".intercalate (refL.eraseDups.map (fun rr => s!"{rr}:{showKW (canonKW (r2.1 rr))}"))
       s!"eff={sh (effective r.2.2 ks)} plain={sh (effective r2.2.2 ks)} dicts={dicts}"
     | none => "ERR:parse"
+  | ["globr", e, g, c0, c1] =>
+    match parseSExp 64 (e.splitOn ",") with
+    | some (body, []) =>
+      let copy := OV.Gen.C14Stash.converterFacts.constByRefSites.isEmpty
+      let ir := translateR copy (parseRGlobals g) (parseCells c0) body
+      let sh := fun (p : GExp) => showCsv (p.consts.map toString)
+      s!"before={sh (ir.toProto (parseCells c0))} after={sh (ir.toProto (parseCells c1))} copy={b01 copy}"
+    | _ => "ERR:parse"
   | ["castable", c1, c2, arg] =>
     let resets := OV.Gen.C14Stash.converterFacts.resetFields.contains "_castable"
     s!"castlike={b01 (insertsCastLike (castableAfter resets (csv c1) (csv c2)) arg)} resets={b01 resets}"
